@@ -162,35 +162,29 @@ namespace bloch::runtime {
         if (q >= 0 && q < static_cast<int>(m_measured.size()))
             m_measured[q] = false;
         // Put qubit q into |0>.
-        // If the state already has amplitude in the |...0> subspace, zero the |...1> subspace
-        // and renormalize. If all amplitude is in |...1>, deterministically move it into
-        // the |...0> subspace (equivalent to an X on a measured |1>), avoiding NaNs.
+        // Reset is a (discarded) computational-basis measurement followed by an X when the
+        // outcome was 1. Sampling the outcome, rather than always projecting onto |...0>,
+        // keeps the statistics of any qubits entangled with q intact.
         size_t bit = size_t{1} << q;
-        double norm0 = 0.0;
+        double p0 = 0.0;
+        double p1 = 0.0;
         for (size_t i = 0; i < m_state.size(); ++i) {
-            if (!(i & bit))
-                norm0 += std::norm(m_state[i]);
+            if (i & bit)
+                p1 += std::norm(m_state[i]);
+            else
+                p0 += std::norm(m_state[i]);
         }
-
-        if (norm0 == 0.0) {
-            // All amplitude is in the |...1> subspace: swap it into |...0>.
-            for (size_t i = 0; i < m_state.size(); ++i) {
-                if (i & bit) {
-                    size_t j = i ^ bit;  // flip target bit to 0
-                    m_state[j] = m_state[i];
-                    m_state[i] = 0.0;
-                }
-            }
-        } else {
-            // Zero |...1> and renormalize |...0>
-            double inv = 1.0 / std::sqrt(norm0);
-            for (size_t i = 0; i < m_state.size(); ++i) {
-                if (i & bit) {
-                    m_state[i] = 0.0;
-                } else {
-                    m_state[i] *= inv;
-                }
-            }
+        std::uniform_real_distribution<double> dist(0.0, 1.0);
+        // Never pick an empty subspace, so the renormalisation below cannot divide by zero.
+        bool one = p0 == 0.0 || (p1 > 0.0 && dist(rng) * (p0 + p1) < p1);
+        double total = one ? p1 : p0;
+        double inv = total > 0.0 ? 1.0 / std::sqrt(total) : 0.0;
+        for (size_t i = 0; i < m_state.size(); ++i) {
+            if (i & bit)
+                continue;
+            // Keep the sampled branch, stored in the |...0> subspace, and clear |...1>.
+            m_state[i] = (one ? m_state[i | bit] : m_state[i]) * inv;
+            m_state[i | bit] = 0.0;
         }
 
         if (m_logOps)
